@@ -19,6 +19,28 @@ def run_cases(cases, want_dec=None, timeout=150, variant="hooks", keep=False):
     def one(j):
         i, c = j
         out = os.path.join(tdir, "case_%d_%d" % (os.getpid(), i))
+        if c.get("twopass"):
+            # two-pass encode: a first session collects the statistics (rc_firstpass_stats_out), a second one consumes them
+            st = out + ".stats"
+            p1 = common.run_enc(out + "_p1", c["args"] + ["--stats-out", st], c.get("sets"), timeout=timeout, variant=variant)
+            for ext in (".trc", ".pkts", ".ev"):
+                if os.path.exists(out + "_p1" + ext):
+                    os.unlink(out + "_p1" + ext)
+            if p1["rc"] != 0 or not os.path.exists(st):
+                p1["case"] = c
+                p1["desc"] = case_desc(c) + " [two-pass, FIRST pass]"
+                p1["dec"] = None
+                p1["out"] = out
+                return p1
+            r = common.run_enc(out, c["args"] + ["--stats-in", st], c.get("sets"), timeout=timeout, variant=variant)
+            os.unlink(st)
+            r["case"] = c
+            r["desc"] = case_desc(c) + " [two-pass]"
+            r["dec"] = None
+            if want_dec and os.path.exists(out + ".pkts") and os.path.getsize(out + ".pkts") > 0:
+                dargs = list(want_dec) + ["-w", str(c.get("w", 64)), "-h", str(c.get("h", 64)), "--bits", str(c.get("bits", 8))]
+                r["dec"] = common.run_dec(out + ".pkts", out + ".dec", dargs + c.get("dec_args", []), timeout=timeout, variant=variant)
+            return r
         r = common.run_enc(out, c["args"], c.get("sets"), timeout=timeout, variant=variant)
         r["case"] = c
         r["desc"] = case_desc(c)
